@@ -37,6 +37,8 @@ fn stream_line(rng: &mut Rng, n: u32, heavy: bool) -> String {
     let (l3, l4, l5) = (1 + rng.below(3), 1 + rng.below(4), 1 + rng.below(5));
     // input lines that are no request at all are lines too: each gets its (error) answer in its place
     if rng.chance(0.04) { return ["", " ", "\t", "count a", "frobnicate 1 2", "count a 1 b"][rng.below(6)].to_string(); }
+    // a t-wise request now and then (its answer differs from run to run, so only its place in the output is compared)
+    if !heavy && n <= 12 && rng.chance(0.03) { return format!("t-wise l {}", 1 + rng.below(2)); }
     match rng.below(if heavy { 9 } else { 6 }) {
         0 => "count".to_string(),
         1 => format!("count a {}", lits(rng, l3)),
@@ -202,6 +204,10 @@ pub fn c14(a: &Args) {
         out.count("stream_lines", nlines as u64);
         if !ok { out.fail("stream-exit-status", &input, &what, "non-zero exit or timeout", "clean exit"); }
         if got_lines != nlines { out.fail("stream-missing-answers", &input, &what, &format!("{got_lines} output lines"), &format!("{nlines} output lines")); }
+        // answers to t-wise requests are compared by position only
+        let tw: Vec<bool> = input.lines().map(|l| l.starts_with("t-wise")).collect();
+        let mask = |s: &str| s.lines().enumerate().map(|(i, l)| if tw.get(i).copied().unwrap_or(false) && !l.starts_with('E') { "<a t-wise sample>" } else { l }).collect::<Vec<_>>().join("\n");
+        let (got, reference) = (mask(&got), mask(&reference));
         if got != reference {
             let idx = got.lines().zip(reference.lines()).position(|(x, y)| x != y).unwrap_or(0);
             out.fail("stream-order", &input, &what, &format!("line {idx}: {:?}", got.lines().nth(idx)), &format!("line {idx}: {:?}", reference.lines().nth(idx)));
